@@ -39,8 +39,8 @@ import (
 
 var (
 	noCacheReg = regexp.MustCompile(`(?i)no-cache|no-store|private`)
-	sMaxAgeReg = regexp.MustCompile(`(?i)s-maxage=(\d+)`)
-	maxAgeReg  = regexp.MustCompile(`(?i)max-age=(\d+)`)
+	sMaxAgeReg = regexp.MustCompile(`(?i)(?:^|,)\s*s-maxage=(\d+)`)
+	maxAgeReg  = regexp.MustCompile(`(?i)(?:^|,)\s*max-age=(\d+)`)
 )
 
 // 根据Cache-Control的信息，获取s-maxage 或者max-age的值
